@@ -30,7 +30,7 @@ const BUCKETS: usize = 1024; // per shard
 const NODES: usize = 4096; // per shard, index 0 is "nil"
 pub const MAX_SESSIONS: usize = 256;
 /// quarantine: one FIFO per shard (a freed block parks in the shard its address hashes to)
-const RING_CAP: usize = 256;
+const RING_CAP: usize = 512;
 const RING_MAX_BYTES: usize = 2 << 20;
 const POISON: u8 = 0xDD;
 
@@ -41,6 +41,8 @@ const QUARANTINED: u8 = 2;
 struct Node {
     ptr: usize,
     size: usize,
+    /// unique number of this allocation (an address can be reused, a serial cannot)
+    serial: u64,
     align: u32,
     generation: u32,
     next: u32,
@@ -65,7 +67,7 @@ struct Shard {
 }
 unsafe impl Sync for Shard {}
 
-const ZERO_NODE: Node = Node { ptr: 0, size: 0, align: 0, generation: 0, next: 0, token: 0, state: 0 };
+const ZERO_NODE: Node = Node { ptr: 0, size: 0, serial: 0, align: 0, generation: 0, next: 0, token: 0, state: 0 };
 
 impl Shard {
     const fn new() -> Shard {
@@ -117,6 +119,7 @@ static ERR_CODE: [AtomicU32; MAX_SESSIONS] = [const { AtomicU32::new(0) }; MAX_S
 static ERR_ARGS: [[AtomicUsize; 5]; MAX_SESSIONS] = [const { [const { AtomicUsize::new(0) }; 5] }; MAX_SESSIONS];
 
 static INSTALLED: AtomicBool = AtomicBool::new(false);
+static SERIAL: AtomicU64 = AtomicU64::new(1);
 static OVERFLOW: AtomicU64 = AtomicU64::new(0);
 static UAF_WRITES: AtomicU64 = AtomicU64::new(0);
 static UAF_FIRST: [AtomicUsize; 3] = [const { AtomicUsize::new(0) }; 3];
@@ -199,6 +202,7 @@ fn record(ptr: *mut u8, layout: Layout, token: u16) {
         d.nodes[i as usize] = Node {
             ptr: ptr as usize,
             size: layout.size(),
+            serial: SERIAL.fetch_add(1, Ordering::Relaxed),
             align: layout.align() as u32,
             generation,
             next: d.buckets[b],
@@ -411,6 +415,8 @@ pub struct Report {
 pub struct Info {
     pub size: usize,
     pub align: usize,
+    /// unique per recorded allocation; distinguishes a block from a later one at the same address
+    pub serial: u64,
     /// false: freed (sitting in the quarantine)
     pub live: bool,
     /// recorded by the session that is currently using that slot
@@ -505,7 +511,7 @@ pub fn lookup(ptr: *const u8) -> Option<Info> {
             return None;
         }
         let n = d.nodes[idx as usize];
-        Some(Info { size: n.size, align: n.align as usize, live: n.state == LIVE, current: current(&n) })
+        Some(Info { size: n.size, align: n.align as usize, serial: n.serial, live: n.state == LIVE, current: current(&n) })
     })
 }
 
